@@ -437,7 +437,7 @@ def unit_overlap_misc(sess, ctx):
              [QU + "_OverlapAudioReader.__init__", QU + "_OverlapAudioReader.read", QU + "_OverlapAudioReader.rewind",
               QU + "_OverlapAudioReader.hop_size", QU + "_FixedSizeAudioReader.__init__"])
     eng = setup(sess, [QU + "_FixedSizeAudioReader.__init__"])
-    ops = ["init", "read", "rewind"]
+    ops = ["init", "read", "rewind", "open"]
 
     def c_iter(eng, fi_, self_val, args, kwargs):
         gh = eng.st.ghost
@@ -450,7 +450,7 @@ def unit_overlap_misc(sess, ctx):
         v = IV(eng)
         inner = inner_obj(eng, v)
         gh = eng.st.ghost
-        op = ops[eng.choose(3, None, "operation")]
+        op = ops[eng.choose(len(ops), None, "operation")]
         if op == "init":
             me = eng.st.new_obj("_OverlapAudioReader", {})
             bd, hd = Fl(Real("block_dur")), Fl(Real("hop_dur"))
@@ -500,6 +500,14 @@ def unit_overlap_misc(sess, ctx):
                 eng.prove("C10:overlap-read:returns-the-generated-block", res is blk, props=P10)
             else:
                 eng.prove("C10:overlap-read:None-when-exhausted-or-finished", res is None and outcome in (1, 3), props=PB)
+            return None
+        if op == "open":
+            # open() on the reader (inherited or overridden): opens the source, keeps the block generator and its overlap
+            eng.inline |= {QU + "_AudioReadingProxy.open"}
+            eng.call_value(eng.getattr(me, "open"), [], {})
+            h = eng.st.heap[me.oid]
+            eng.prove("C10:overlap-open:keeps-the-block-generator(overlap-not-discarded)", h["_blocks"] is g0 and not gh.get("gens"),
+                      props=PB + ("C08",))
             return None
         eng.run_function(ctx.fi(QU + "_OverlapAudioReader.rewind"), [], {}, me)
         h = eng.st.heap[me.oid]
